@@ -547,7 +547,11 @@ func buildContender(dir string) error {
 		verif = "/verif"
 	}
 	harness := filepath.Join(verif, "harness")
-	env := append(os.Environ(), "GOTOOLCHAIN=local", "GOPROXY=off", "GOSUMDB=off", "GOFLAGS=-mod=mod", "CGO_ENABLED=0")
+	goflags := os.Getenv("GOFLAGS") // the driver may point at an alternative go.mod (-modfile) when VERIF_REPO is not /repo
+	if goflags == "" {
+		goflags = "-mod=mod"
+	}
+	env := append(os.Environ(), "GOTOOLCHAIN=local", "GOPROXY=off", "GOSUMDB=off", "GOFLAGS="+goflags, "CGO_ENABLED=0")
 	runIn := func(wd string, args ...string) error {
 		cmd := exec.Command(args[0], args[1:]...)
 		cmd.Dir = wd
